@@ -55,6 +55,10 @@ def atan(x):
 def cycle(theta):
     return theta if theta >= 0.0 and theta < 360.0 else theta % 360.0
 
+def _whole(x):
+    # The result of a division is a float even when it is a whole number.
+    return int(x) if isinstance(x, float) and x.is_integer() else x
+
 @builtin
 def random(min, max):
-    return py_random.randrange(min, max + 1)
+    return py_random.randrange(_whole(min), _whole(max) + 1)
